@@ -45,6 +45,7 @@ pub fn c06_configs(tier: Tier) -> Vec<OutCfg> {
                 peer_max_packet: 0,
                 inbound: 0,
                 may_close: false,
+                inbound_faults: false,
             });
         }
         // converse: correct in-order peer, some sends fail locally
@@ -90,6 +91,7 @@ pub fn c06_configs(tier: Tier) -> Vec<OutCfg> {
                 peer_max_packet: if big { 100 } else { 0 },
                 inbound: 0,
                 may_close: false,
+                inbound_faults: false,
             });
         }
     }
@@ -123,6 +125,7 @@ pub fn c14_configs(tier: Tier) -> Vec<OutCfg> {
                     peer_max_packet: 0,
                     inbound: 0,
                     may_close: false,
+                    inbound_faults: false,
                 });
             }
         }
